@@ -75,15 +75,29 @@ Theorem C18_imports_agree :
 Proof. exact imports_agree. Qed.
 Print Assumptions C18_imports_agree.
 
-(* together: in ANY compositional semantics where await is the identity and R1-R3 are valid, every
-   shared method other than the two constructor helpers means the same in both classes *)
+(* R1/R2 delete the binding of a temporary; in every twin, each temporary so eliminated occurs nowhere
+   else in the method (a later use would observe the difference; a local rewrite cannot see it) *)
+Theorem C18_temps_scoped : unscoped_temps shared = [].
+Proof. exact temps_scoped_today. Qed.
+Print Assumptions C18_temps_scoped.
+
+(* together: in ANY compositional semantics where await is the identity and normalisation preserves
+   the meaning of methods whose eliminated temporaries occur nowhere else, every shared method other
+   than the two constructor helpers means the same in both classes *)
 Theorem C18_twins_denote_equal :
   forall (A : Type) (s : tree -> A) (alg : N -> list A -> A),
-    compositional s alg -> await_transparent alg -> seq_rewrites_sound s alg ->
+    compositional s alg -> await_transparent alg -> norm_sound_on_scoped s ->
     forall m, In m shared -> ~ In (m_name m) ["init_with_file"; "init_with_model_and_adapter"] ->
     s (m_async m) = s (m_sync m).
-Proof. exact twins_denote_equal_today. Qed.
+Proof. exact twins_denote_equal_scoped_today. Qed.
 Print Assumptions C18_twins_denote_equal.
+
+(* the method-level hypothesis follows from validity of R1-R3 on every statement list *)
+Theorem C18_local_rules_suffice :
+  forall (A : Type) (s : tree -> A) (alg : N -> list A -> A),
+    compositional s alg -> seq_rewrites_sound s alg -> norm_sound_on_scoped s.
+Proof. exact norm_sound_from_local. Qed.
+Print Assumptions C18_local_rules_suffice.
 
 Theorem C18_erase_preserves_today :
   forall (A : Type) (s : tree -> A) (alg : N -> list A -> A),
@@ -98,6 +112,11 @@ Theorem C18_table_nontrivial :
   /\ forallb (fun m => tree_eqb (m_async m) (m_sync m)) shared = false
   /\ existsb (fun m => negb (tree_eqb (erase (m_async m)) (erase (m_sync m))) && twin_eqb m) shared = true.
 Proof. exact table_nontrivial. Qed.
+Print Assumptions C18_table_nontrivial.
+
+Theorem C18_temps_nontrivial :
+  existsb (fun m => negb (match norm_vars (erase (m_async m)) with [] => true | _ => false end)) shared = true.
+Proof. exact temps_nontrivial. Qed.
 
 (* the hypotheses of (a) are satisfiable by a non-trivial semantics: erase itself *)
 Example C18_hypotheses_satisfiable : compositional erase erase_alg /\ await_transparent erase_alg.
